@@ -150,7 +150,7 @@ impl Prop for C11 {
         Scenario::Session(Session { docs, alts, replicas, opts: all_opts(&derive) })
     }
     fn exec(&self, sc: &Scenario, ctr: &mut Ctr) -> Result<Exec, String> {
-        let Scenario::Session(s) = sc;
+        let Scenario::Session(s) = sc else { return Ok(super::skip("not_a_session")) };
         if s.replicas.is_empty() || s.replicas.iter().any(|r| r.steps.len() != s.replicas[0].steps.len()) {
             return Ok(skip("twins_differ_in_length"));
         }
